@@ -152,6 +152,8 @@ class FuncScan:
                     r = root_name(val.args[0])
                 if isinstance(val, ast.Call) and isinstance(val.func, ast.Name) and val.func.id == "getattr" and val.args:
                     r = root_name(val.args[0])      # getattr(f, "attr", default): (part of) the field object
+                if isinstance(val, (ast.ListComp, ast.SetComp, ast.GeneratorExp)):
+                    r = root_name(val.elt)          # options = [f for f in self.get_fields() if ..]
                 if isinstance(val, (ast.IfExp,)):
                     r = root_name(val.body)
                 if isinstance(val, ast.BinOp):
@@ -219,6 +221,20 @@ def _lambda_params(v):
         if isinstance(x, ast.comprehension):
             out |= names_in(x.target)
     return out
+
+
+def _same_collection(fn, loopvar, expr):
+    """does `expr` subscript the collection that the loop variable `loopvar` iterates over?  (for field in C: ... C[0])"""
+    if not isinstance(expr, ast.Subscript):
+        return False
+    for n in ast.walk(fn):
+        if isinstance(n, ast.For) and isinstance(n.target, ast.Name) and n.target.id == loopvar:
+            it = n.iter
+            if isinstance(it, ast.Call) and isinstance(it.func, ast.Name) and it.func.id in ("enumerate", "list", "tuple") and it.args:
+                it = it.args[0]
+            if ast.unparse(it) == ast.unparse(expr.value):
+                return True
+    return False
 
 
 def _span(node):
@@ -298,6 +314,7 @@ def scan(repo=None):
             fs = FuncScan(fn, cls in fclasses, fclasses)
             writes = []
             rmw_lines = set()
+            atomic_lines = set()
             for n in ast.walk(fn):
                 if isinstance(n, ast.Call) and len(n.args) == 3 and (
                         (isinstance(n.func, ast.Name) and n.func.id == "setattr") or
@@ -313,6 +330,15 @@ def scan(repo=None):
                     val = n.args[-1] if n.args else ast.Constant(value=None)
                     writes.append((n.lineno, n.func.value.value, n.func.value.attr, val, n))
                     if n.func.attr != "setdefault":
+                        rmw_lines.add(n.lineno)
+                elif isinstance(n, ast.Call) and isinstance(n.func, ast.Attribute) and n.func.attr in _MUTATORS \
+                        and isinstance(n.func.value, ast.Name) and n.func.value.id in fs.container_aliases():
+                    # d = getattr(f, "_registry", ..)[k] ... d.setdefault(h, v) / d.update(..): through a local alias
+                    val = n.args[-1] if n.args else ast.Constant(value=None)
+                    writes.append((n.lineno, n.func.value, "<container>", val, n))
+                    if n.func.attr == "setdefault":
+                        atomic_lines.add(n.lineno)      # test and store in ONE dict operation
+                    elif _guarded_by_membership(fn, n, n.func.value.id):
                         rmw_lines.add(n.lineno)
                 elif isinstance(n, (ast.Assign, ast.AugAssign, ast.AnnAssign)):
                     tgts = n.targets if isinstance(n, ast.Assign) else [n.target]
@@ -374,11 +400,24 @@ def scan(repo=None):
                 for m in ast.walk(fn):
                     if isinstance(m, ast.Call):
                         if (isinstance(m.func, ast.Attribute) and m.func.attr == "__set__"
-                                and ast.unparse(m.func.value) in aliases):
+                                and ast.unparse(m.func.value) == tgt_s):
                             read_back = True
                             if _stmt_line(fn, m) not in events["S"]:
                                 events["S"].append(_stmt_line(fn, m))
                             events["ops"].append(["S"] + _span(m))
+                        elif (isinstance(m.func, ast.Attribute) and m.func.attr == "__set__"
+                              and ast.unparse(m.func.value) in aliases):
+                            # `matched = field` ... `matched.__set__(instance, value)`: the alias names the object (the loop
+                            # variable may have moved on), so the event carries the alias as its own target expression
+                            read_back = True
+                            events.setdefault("Sx", []).append([_stmt_line(fn, m), ast.unparse(m.func.value)] + _span(m))
+                        elif (isinstance(m.func, ast.Attribute) and m.func.attr == "__set__"
+                              and ast.unparse(m.func.value) != "super()" and fs.is_field_expr(m.func.value)
+                              and isinstance(tgt, ast.Name) and _same_collection(fn, tgt.id, m.func.value)):
+                            # another expression for one of the objects the loop variable ranges over
+                            # (`self.get_fields()[0].__set__(instance, value)`): an S event with its OWN target expression
+                            read_back = True
+                            events.setdefault("Sx", []).append([_stmt_line(fn, m), ast.unparse(m.func.value)] + _span(m))
                         if (isinstance(m.func, ast.Name) and m.func.id == "getattr" and len(m.args) >= 2
                                 and _const_str(m.args[1]) == attr and ast.unparse(m.args[0]) == tgt_s):
                             read_back = True
@@ -401,8 +440,18 @@ def scan(repo=None):
                         any(isinstance(m, ast.Call) and isinstance(m.func, ast.Name) and m.func.id == "getattr"
                             and len(m.args) >= 2 and _const_str(m.args[1]) == attr and ast.unparse(m.args[0]) == "self"
                             for m in ast.walk(fn))
+                # the function's reads of ITS OWN `self.<attr>` (and `super().__set__(..)`, which stores / reports under it):
+                # shared accesses too when `self` is itself a nested item whose attribute another site rewrites
+                wlines = {w[0] for w in writes}
+                events["Sself"] = sorted({m.lineno for m in ast.walk(fn)
+                                          if ((isinstance(m, ast.Attribute) and isinstance(m.ctx, ast.Load) and m.attr == attr
+                                               and isinstance(m.value, ast.Name) and m.value.id == "self")
+                                              or (isinstance(m, ast.Call) and isinstance(m.func, ast.Attribute)
+                                                  and m.func.attr == "__set__" and ast.unparse(m.func.value) == "super()"))
+                                          and m.lineno not in wlines}) if fs.has_self and tgt_s != "self" else []
                 rows.append({"path": rel, "file": os.path.basename(rel), "func": qual, "attr": attr, "target": tgt_s,
-                             "valueKind": "readModifyWrite" if lineno in rmw_lines else fs.value_kind(val),
+                             "valueKind": "readModifyWrite" if lineno in rmw_lines else
+                             "keyedCache" if lineno in atomic_lines else fs.value_kind(val),
                              "readBack": read_back or lineno in rmw_lines, "line": lineno,
                              "value": ast.unparse(val), "events": events,
                              "first_line": _first_line(fn), "last_line": fn.end_lineno})
